@@ -62,15 +62,16 @@ func (ip *Interp) lookupIntrinsic(fn *ssa.Function) intrinsicFn {
 		}
 		ip.unsupported("unknown verifrt function " + name)
 	}
-	if ip.cfg.isStubPkg(path) {
-		return stubZero
-	}
+	// an explicit model beats the blanket stub of its package
 	if ip.cfg.ModelFor != nil {
 		if m, ok := ip.cfg.ModelFor[key]; ok {
 			return func(ip *Interp, _ *ssa.Function, args []Value) Value {
 				return ip.callFunction(m, args, nil)
 			}
 		}
+	}
+	if ip.cfg.isStubPkg(path) {
+		return stubZero
 	}
 	return nil
 }
@@ -405,6 +406,17 @@ func init() {
 		return nil
 	}
 	V["Settle"] = func(ip *Interp, fn *ssa.Function, args []Value) Value { return nil }
+	// WakeSleepers: time passes: every goroutine inside time.Sleep (sleep_env mode) wakes up.
+	V["WakeSleepers"] = func(ip *Interp, fn *ssa.Function, args []Value) Value {
+		ip.syncRelease(ip.conc)
+		for _, g := range ip.gs {
+			if !g.done && g.sleeping {
+				g.sleepWake = true
+			}
+		}
+		ip.schedPoint("WakeSleepers")
+		return nil
+	}
 	// ExpireDeadline(ctx): the environment lets the nearest pending deadline on ctx's chain expire (a request that
 	// takes longer than its context allows); false if the chain carries no deadline.
 	V["ExpireDeadline"] = func(ip *Interp, fn *ssa.Function, args []Value) Value {
@@ -808,6 +820,17 @@ func init() {
 		return ip.timeNowValue(ext)
 	}
 	I["time.Sleep"] = func(ip *Interp, fn *ssa.Function, args []Value) Value {
+		if ip.cfg.SleepEnv {
+			// the sleeper wakes when the harness lets time pass (verifrt.WakeSleepers) or when nothing else can run
+			g := ip.cur
+			ip.schedPoint("time.Sleep")
+			g.sleeping, g.sleepWake = true, false
+			ip.block(func() bool { return g.sleepWake }, "time.Sleep")
+			g.sleeping = false
+			g.sleepWake = false
+			ip.syncAcquire(ip.conc)
+			return nil
+		}
 		ip.schedPoint("time.Sleep", fn)
 		return nil
 	}
